@@ -101,18 +101,92 @@ def rule_h2(F):
         r.bad(MD, "fields", "src/codegen/mod.rs", 0, "ModuleData no longer holds both the RotoConstant map and the JIT wrapper")
     elif not max(consts) < min(jit):
         r.bad(MD, "field order", "src/codegen/mod.rs", 0, "the JIT memory (%s) is declared before the script constants (%s): constants would be dropped by code that is already freed" % (names[jit[0]], names[consts[0]]))
+    else:
+        # everything else the module keeps alive can own script-created values too (a registered closure that stored a list it was
+        # handed: the list's vtable points at generated drop glue), so the machine code is the LAST thing to go: no owning field
+        # (anything but a plain number / marker) is declared after it
+        later = [names[i] for i in range(min(jit) + 1, len(fs)) if not re.match(r"^(std::marker::PhantomData<|usize$|u\d+$|i\d+$|bool$|\(\)$)", tys[i])]
+        r.inst("JIT memory is the last owning field", {"declared_after_it": later})
+        if later:
+            r.bad(MD, "field order: " + ", ".join(later) + " after the JIT memory", "src/codegen/mod.rs", 0,
+                  "%s is declared (and therefore dropped) after the JIT memory (%s): state captured by registered closures or held by registered constants can own script-created "
+                  "values whose drop functions live in that memory" % (", ".join(later), names[jit[0]]))
     return r
 
 
+def _forward(b, start):
+    """Locals that (transitively) receive the value of one of the `start` locals by move / copy / being put into an aggregate or passed
+    through a call, with what they passed on the way: (tracked locals, [(bb, callee def) of calls that take a tracked value],
+    {adt paths of aggregates built from a tracked value}, returned?)"""
+    tracked = set(start)
+    calls_, aggs = [], set()
+    changed = True
+    while changed:
+        changed = False
+        for bi, blk in enumerate(b.blocks):
+            for st in blk["stmts"]:
+                if st["k"] != "assign":
+                    continue
+                rv = st["rv"]
+                if any(x in tracked for x in mir.rv_locals(rv)):
+                    if rv["k"] == "agg" and rv.get("adt"):
+                        aggs.add(rv["adt"])
+                    if st["p"][0] not in tracked:
+                        tracked.add(st["p"][0])
+                        changed = True
+            t = blk["term"]
+            if t["k"] == "call" and any(mir.is_place_op(a) and a[1][0] in tracked for a in t["args"]):
+                d = mir.callee_def(t) or ""
+                if (bi, d) not in calls_:
+                    calls_.append((bi, d))
+                if t.get("dest") and t["dest"][0] not in tracked:
+                    tracked.add(t["dest"][0])
+                    changed = True
+    return tracked, calls_, aggs, 0 in tracked
+
+
+def _ends_up(F, b, start, want_call=None, want_agg=None, depth=0):
+    """Does the value in `start` (locals of b) reach a call of `want_call` (suffix of the callee's def path) / an aggregate of
+    `want_agg` - in b, or, when b hands it back to its callers, in every caller?"""
+    tracked, calls_, aggs, returned = _forward(b, start)
+    if want_call and any(d.endswith(want_call) for _, d in calls_):
+        return True
+    if want_agg and want_agg in aggs:
+        return True
+    if not returned or depth > 3:
+        return False
+    sites = []
+    for cb in F.all_bodies():
+        if cb.mir:
+            sites += [(cb, t) for _, t in mir.calls(cb) if b.path in (mir.callee(t), mir.callee_def(t))]
+    return bool(sites) and all(t.get("dest") and _ends_up(F, cb, [t["dest"][0]], want_call, want_agg, depth + 1) for cb, t in sites)
+
+
+def _call_roots(F, path, seen=None):
+    """the functions from which `path` is (transitively) called and that have no caller of their own in the crate"""
+    seen = seen if seen is not None else set()
+    if path in seen:
+        return set()
+    seen.add(path)
+    if path.endswith("ModuleBuilder::finalize"):
+        return {path}           # everything above finalize() reaches the site through finalize()
+    cs = {c for c in mir._callers_of(F, path) if c != path}
+    if not cs:
+        return {path}
+    out = set()
+    for c in cs:
+        out |= _call_roots(F, c, seen)
+    return out
+
+
 def rule_h3(F):
-    r = RuleResult("C11.H3", "who frees / constructs: free_memory only in Drop of the wrapper; wrapper/data/shared built only in their new(); no other owner", floor=5)
+    """Who frees and who owns: the JIT memory is freed only by the Drop of the wrapper that owns it; the wrapper only ever becomes a
+    field of ModuleData; ModuleData only ever goes straight into Arc::new (it has no other owner than the shared handle); the shared
+    handle is only assembled on behalf of ModuleBuilder::finalize.  Decided by following each constructed value forward through the
+    function that builds it (and, where that function returns it, through every caller) - so a constructor may be inlined or added."""
+    r = RuleResult("C11.H3", "who frees / constructs: free_memory only in Drop of the wrapper; wrapper -> ModuleData -> Arc::new -> SharedModuleData, assembled only for finalize(); no other owner", floor=4)
     bodies = [b for b in F.all_bodies() if b.mir]
-    allowed_agg = {
-        JW: ("codegen::ModuleData::new",),
-        MD: ("codegen::ModuleData::new",),
-        SMD: ("codegen::SharedModuleData::new",),
-    }
-    seen = {k: 0 for k in allowed_agg}
+    seen = {JW: 0, MD: 0, SMD: 0}
     for b in bodies:
         for bi, t in mir.calls(b):
             name = mir.callee_def(t)
@@ -120,26 +194,28 @@ def rule_h3(F):
                 r.inst("free_memory in " + b.path)
                 if b.path != "<codegen::JITModuleWrapper as std::ops::Drop>::drop":
                     r.bad(b.path, "free_memory", relfile(b.file), t["line"], "JIT memory is freed outside <JITModuleWrapper as Drop>::drop")
-            if name == "codegen::ModuleData::new":
-                r.inst("ModuleData::new called in " + b.path)
-                if b.path != "codegen::SharedModuleData::new":
-                    r.bad(b.path, "ModuleData::new", relfile(b.file), t["line"], "ModuleData is created outside SharedModuleData::new (not inside the Arc)")
-                else:
-                    # its result must flow into Arc::new
-                    nxt = [tt for _, tt in mir.calls(b) if mir.callee_def(tt).endswith("Arc::<T>::new")]
-                    if not nxt:
-                        r.bad(b.path, "Arc::new", relfile(b.file), t["line"], "SharedModuleData::new does not wrap ModuleData in Arc::new")
-            if name == "codegen::SharedModuleData::new":
-                r.inst("SharedModuleData::new called in " + b.path)
-                if not b.path.endswith("ModuleBuilder::finalize"):
-                    r.bad(b.path, "SharedModuleData::new", relfile(b.file), t["line"], "module data is assembled outside ModuleBuilder::finalize")
-        for adt, ok in allowed_agg.items():
-            for bi, st in mir.agg_sites(b, adt):
-                seen[adt] += 1
-                derived_clone = b.path.startswith("<" + adt) and b.path.endswith("as std::clone::Clone>::clone")
-                r.inst("%s built in %s" % (adt, b.path))
-                if b.path not in ok and not derived_clone:
-                    r.bad(b.path, "constructs " + adt, relfile(b.file), st["line"], "%s is constructed outside %s" % (adt, ok))
+        derived = lambda adt: b.path.startswith("<" + adt) and b.path.endswith("as std::clone::Clone>::clone")
+        for bi, st in mir.agg_sites(b, JW):
+            seen[JW] += 1
+            ok = _ends_up(F, b, [st["p"][0]], want_agg=MD)
+            r.inst("%s built in %s" % (JW, b.path), {"becomes_a_field_of_ModuleData": ok})
+            if not ok and not derived(JW):
+                r.bad(b.path, "constructs " + JW, relfile(b.file), st["line"], "%s is constructed here but does not become a field of %s: the JIT memory gets an owner outside the shared module data" % (JW, MD))
+        for bi, st in mir.agg_sites(b, MD):
+            seen[MD] += 1
+            ok = _ends_up(F, b, [st["p"][0]], want_call="Arc::<T>::new")
+            r.inst("%s built in %s" % (MD, b.path), {"goes_straight_into_Arc_new": ok})
+            if not ok and not derived(MD):
+                r.bad(b.path, "constructs " + MD, relfile(b.file), st["line"], "%s is constructed here but is not wrapped in Arc::new (by this function or by all its callers): it is not owned by the shared handle" % MD)
+        for bi, st in mir.agg_sites(b, SMD):
+            seen[SMD] += 1
+            if derived(SMD):
+                continue
+            roots_ = _call_roots(F, b.path)
+            via = {x for x in roots_ if not x.endswith("ModuleBuilder::finalize")}
+            r.inst("%s built in %s" % (SMD, b.path), {"call_roots": sorted(roots_)})
+            if via:
+                r.bad(b.path, "constructs " + SMD, relfile(b.file), st["line"], "module data is assembled outside ModuleBuilder::finalize (also reachable from %s)" % sorted(via))
     for adt, n in seen.items():
         if n == 0:
             r.missing("construction site of " + adt)
@@ -181,55 +257,81 @@ def rule_h4(F):
             r.inst("ConstantAddress sources", {"maps": sorted(srcs)})
             if not srcs or not srcs <= {"module.runtime_constants", "module.roto_constants"}:
                 r.bad(b.path, "ConstantAddress", relfile(b.file), rw["line"], "constant addresses are taken from %s; only the module-owned maps (runtime_constants, roto_constants) outlive the runtime" % sorted(srcs))
-    # finalize moves all three collections + jit
-    fb = None
-    for p in F.paths():
-        if p.endswith("ModuleBuilder::finalize"):
-            fb = F.body(p)
-    if fb is None:
-        r.missing("ModuleBuilder::finalize")
-    else:
-        for c in hir.nodes(fb.hir["value"], "call"):
-            if (hir.call_def(c) or "") == "codegen::SharedModuleData::new":
-                got = []
-                for a in c["args"]:
-                    a = hir.peel_refs(a)
-                    got.append(a["n"] if a.get("k") == "field" else "?")
-                r.inst("finalize moves", {"args": got})
-                if got != ["inner", "runtime_constants", "roto_constants", "registered_fns"]:
-                    r.bad(fb.path, "finalize", relfile(fb.file), c["line"], "finalize passes %s to SharedModuleData::new; expected the builder's own inner, runtime_constants, roto_constants, registered_fns" % got)
-    # SharedModuleData::new / ModuleData::new forward parameters to the same-named fields
-    mb = F.body("codegen::ModuleData::new")
-    if mb is None:
+    # what ModuleData keeps alive is what the builder collected: each field of the ModuleData literal is followed back (data flow on
+    # the MIR, through constructor parameters and their call sites) to the field of ModuleBuilder it comes from - wherever the literal
+    # is written (ModuleData::new, SharedModuleData::new, finalize itself)
+    from .c08 import deps
+
+    def builder_fields(b, defs, local, depth=0):
+        out = set()
+        for dk in deps(b, defs, local):
+            m = re.match(r"^arg(\d+)(?:\.(.+))?$", dk)
+            if not m:
+                out.add("?" + dk)
+                continue
+            ai = int(m.group(1))
+            aty = str(b.mir["locals"][ai].get("ty") or "")
+            if "ModuleBuilder" in aty and m.group(2):
+                out.add(m.group(2).split(".")[0])
+                continue
+            if depth > 3:
+                out.add("?depth")
+                continue
+            sites = []
+            for cb in F.all_bodies():
+                if cb.mir:
+                    sites += [(cb, t) for _, t in mir.calls(cb) if b.path in (mir.callee(t), mir.callee_def(t))]
+            if not sites:
+                out.add("?no caller of " + hir.last(b.path))
+            for cb, t in sites:
+                a = t["args"][ai - 1] if ai - 1 < len(t["args"]) else None
+                if a is None or not mir.is_place_op(a):
+                    out.add("?constant")
+                    continue
+                out |= builder_fields(cb, mir.Defs(cb), a[1][0], depth + 1)
+        return out
+    want = {"_constants": "runtime_constants", "_roto_constants": "roto_constants", "_registered_fns": "registered_fns", "cranelift_jit": "inner"}
+    nsites = 0
+    for mb in F.all_bodies():
+        if not mb.mir:
+            continue
+        for _, st in mir.agg_sites(mb, MD):
+            if mb.path.endswith("as std::clone::Clone>::clone"):
+                continue
+            nsites += 1
+            mdefs = mir.Defs(mb)
+            for fname, o in zip(st["rv"].get("fields") or [], st["rv"]["ops"]):
+                if fname not in want:
+                    continue
+                src = builder_fields(mb, mdefs, o[1][0]) if mir.is_place_op(o) else {"?constant"}
+                r.inst("ModuleData.%s" % fname, {"field": fname, "comes_from_builder_field": sorted(src), "literal_in": mb.path})
+                if src != {want[fname]}:
+                    r.bad(mb.path, fname, relfile(mb.file), st.get("line") or mb.line,
+                          "ModuleData.%s is filled from %s instead of the builder's own `%s`: what generated code points into is not what the handles keep alive" % (fname, sorted(src), want[fname]))
+    if nsites == 0:
         r.missing("codegen::ModuleData::new")
-    else:
-        for st in hir.nodes(mb.hir["value"], "struct"):
-            fd = dict((f[0], f[1]) for f in st["fields"])
-            want = {"_constants": "constants", "_roto_constants": "roto_constants", "_registered_fns": "registered_fns", "cranelift_jit": "cranelift_jit"}
-            for k, v in want.items():
-                if k in fd:
-                    rs = roots(hir.LocalDefs(mb.hir), fd[k])
-                    r.inst("ModuleData::new %s" % k, {"field": k, "from": sorted(rs)})
-                    if rs != {v}:
-                        r.bad(mb.path, k, relfile(mb.file), st["line"], "field %s is initialised from %s instead of parameter %s" % (k, sorted(rs), v))
-    # declare_constant stores a clone of the runtime's constant value
-    db = None
-    for p in F.paths():
-        if p.endswith("ModuleBuilder::declare_constant"):
-            db = F.body(p)
-    if db is None:
-        r.missing("ModuleBuilder::declare_constant")
-    else:
-        ins = [c for c in hir.nodes(db.hir["value"], "mcall") if c["m"] == "insert"]
-        ok = False
-        for c in ins:
+    # the registered constants are CLONED into the module-owned map (the runtime may be dropped before the functions)
+    ins_sites = []
+    for cbd in F.bodies_in(["src/codegen/mod.rs"]):
+        if not cbd.hir or "::tests::" in cbd.path:
+            continue
+        for c in hir.nodes(cbd.hir["value"], "mcall"):
             rc = hir.peel_refs(c["recv"])
-            if rc.get("k") == "field" and rc["n"] == "runtime_constants":
-                v = c["args"][1]
-                ok = v.get("k") == "mcall" and v["m"] == "clone"
-        r.inst("declare_constant clones", {"ok": ok})
+            if c["m"] == "insert" and rc.get("k") == "field" and rc["n"] == "runtime_constants" and len(c["args"]) == 2:
+                ins_sites.append((cbd, c))
+    if not ins_sites:
+        r.missing("ModuleBuilder::declare_constant")
+    for cbd, c in ins_sites:
+        v = hir.strip(c["args"][1])
+        l = hir.res_local(v) if v.get("k") == "path" else None
+        if l is not None:
+            d = hir.LocalDefs(cbd.hir).get(l)
+            if d and d[1] is not None:
+                v = hir.strip(d[1])
+        ok = v.get("k") == "mcall" and v["m"] == "clone"
+        r.inst("declare_constant clones", {"ok": ok, "fn": cbd.path})
         if not ok:
-            r.bad(db.path, "clone", relfile(db.file), db.line, "declare_constant does not store a clone of the registered constant in the module-owned map")
+            r.bad(cbd.path, "clone", relfile(cbd.file), c.get("line") or cbd.line, "the registered constant is not stored as a clone in the module-owned map")
     # registered closures: the Arc whose address is baked in is pushed into registered_fns
     cb = F.body("codegen::codegen")
     if cb is None:
@@ -270,27 +372,34 @@ def rule_h5(F):
     if nb is None or db is None:
         return r
 
-    def layout_args(body):
-        out = []
-        ld = hir.LocalDefs(body.hir)
-        for c in hir.nodes(body.hir["value"], "call"):
-            if (hir.call_def(c) or "").endswith("Layout::from_size_align"):
-                out.append([sorted(roots(ld, a)) if not hir.peel_refs(a).get("k") == "field" else [hir.peel_refs(a)["n"]] for a in c["args"]])
-        return out
-    la = layout_args(nb)
-    lb = layout_args(db)
-    r.inst("layout args", {"new": la, "drop": lb})
-    if la != [[["size"], ["align"]]] or lb != [[["size"], ["align"]]]:
-        r.bad("codegen::RotoConstant", "layout", relfile(nb.file), nb.line, "alloc uses %s, dealloc uses %s: expected (size, align) on both sides" % (la, lb))
-    # struct literal stores the same size/align
-    for st in hir.nodes(nb.hir["value"], "struct"):
-        fd = dict((f[0], f[1]) for f in st["fields"])
-        for k in ("size", "align"):
-            if k in fd:
-                rs = roots(hir.LocalDefs(nb.hir), fd[k])
-                r.inst("stores " + k)
-                if rs != {k}:
-                    r.bad(nb.path, k, relfile(nb.file), st["line"], "RotoConstant.%s is initialised from %s" % (k, sorted(rs)))
+    # the slot is freed with the layout it was allocated with: the layout handed to dealloc is built from fields of the constant, and
+    # `new` initialises exactly those fields from what its own alloc layout is built from (data flow on the MIR: it does not matter
+    # whether the constant stores size and align, or the Layout itself)
+    from .c08 import deps
+    ndefs, ddefs = mir.Defs(nb), mir.Defs(db)
+    alloc_deps, dealloc_fields = None, None
+    for _, t in mir.calls(nb):
+        if (mir.callee_def(t) or "").endswith("alloc::alloc") and t["args"] and mir.is_place_op(t["args"][0]):
+            alloc_deps = set(deps(nb, ndefs, t["args"][0][1][0]))
+    for _, t in mir.calls(db):
+        if (mir.callee_def(t) or "").endswith("alloc::dealloc") and len(t["args"]) == 2 and mir.is_place_op(t["args"][1]):
+            dealloc_fields = set(deps(db, ddefs, t["args"][1][1][0]))
+    stored = {}
+    for _, st in mir.agg_sites(nb, "codegen::RotoConstant"):
+        for fname, o in zip(st["rv"].get("fields") or [], st["rv"]["ops"]):
+            stored[fname] = set(deps(nb, ndefs, o[1][0])) if mir.is_place_op(o) else set()
+    r.inst("layout args", {"alloc_layout_from": sorted(alloc_deps or []), "dealloc_layout_from": sorted(dealloc_fields or []), "fields_initialised_from": {k: sorted(v) for k, v in stored.items()}})
+    if alloc_deps is None or dealloc_fields is None or not stored:
+        r.bad("codegen::RotoConstant", "layout", relfile(nb.file), nb.line, "alloc in RotoConstant::new / dealloc in its Drop / the struct literal not found")
+    else:
+        fl = {x.split(".", 1)[1] for x in dealloc_fields if x.startswith("arg1.")}
+        back = set().union(*[stored.get(f, {"?" + f}) for f in fl]) if fl else set()
+        if not fl or any(not x.startswith("arg1.") for x in dealloc_fields) or back != alloc_deps:
+            r.bad("codegen::RotoConstant", "layout", relfile(nb.file), nb.line,
+                  "the slot is allocated with a layout built from %s but freed with one built from the fields %s, which `new` initialises from %s: expected the same (size, align) on both sides"
+                  % (sorted(alloc_deps), sorted(dealloc_fields), sorted(back)))
+        for f in sorted(fl):
+            r.inst("stores " + f)
     # order in drop: indirect call through drop_fn before dealloc
     order = []
     for bi, t in mir.calls(db):
@@ -442,6 +551,13 @@ def rule_h9(F):
                 continue
             owner = b.path.split("::{closure")[0]
             reason = next((v for (fn, p_), v in RELINQUISH_REVIEWED.items() if owner.endswith(fn) and p_ == prim), None)
+            if reason is None and prim == "ManuallyDrop::new" and t.get("dest"):
+                # decided: the ManuallyDrop becomes a field of a type whose own Drop releases it explicitly
+                for adt in sorted(_forward(b, [t["dest"][0]])[2]):
+                    db_ = F.body("<%s as std::ops::Drop>::drop" % adt)
+                    if db_ is not None and db_.mir and any(
+                            re.search(r"ManuallyDrop::<T>::(drop|take|into_inner)$", mir.callee_def(tt) or "") for _, tt in mir.calls(db_)):
+                        reason = "decided: becomes a field of %s, whose Drop releases it explicitly" % adt
             if reason is None and prim == "forget" and _owns_nothing(F, (t["f"].get("gargs") or [""])[0]):
                 reason = "decided: the forgotten value is a guard that owns nothing (fields are borrows / raw pointers / numbers)"
             r.inst("%s %s" % (owner, prim), {"fn": owner, "line": t.get("line"), "primitive": prim, "reviewed": reason})
